@@ -88,9 +88,14 @@ package expand
 
 // Representation invariant of listEnviron, established by its only constructor: every surviving element is a
 // valid name=value pair (invalid input pairs are ignored).
+// "The last one wins": the loop keeps the last element of every run of equal names, which is the last value GIVEN for
+// the name only if the sort before it kept equal names in their original order. stableSortedObj (ghost, see
+// /verif/trusted/slices.spec) names the backing array last sorted by a stable sort.
 //@ func listEnviron_
 //@ props C34
 //@ ensures [survivors-valid] all(j, 0, len(result.(listEnviron).pairs), validPair(result.(listEnviron).pairs[j]))
+//@ ensures [last-wins-needs-stable-order] stableSortedObj == objof(result.(listEnviron).pairs) || len(result.(listEnviron).pairs) == 0
+//@ loop 1 invariant [sorted-stably] stableSortedObj == objof(list)
 //@ loop 1 invariant [prefix-valid] 0 <= i && i <= len(list) && (i == 0) == (len(last) == 0) && all(j, 0, i, validPair(list[j]))
 //@ loop 1 decreases len(list) - i
 
